@@ -476,6 +476,11 @@ def _known_f9(facet, case, violation):
     return bool(case.get("raw")) and violation.kind == "content" and bad(case["msgs"])
 
 
-KNOWN = {"F8-aware-time": _known_f8, "F9-time-fraction": _known_f9}
+def _known_f21(facet, case, violation):
+    # the installed orjson refuses more than 254 nested containers
+    return bool(case.get("raw")) and violation.kind == "raised" and "Recursion limit reached" in str(violation.detail)
+
+
+KNOWN = {"F8-aware-time": _known_f8, "F9-time-fraction": _known_f9, "F21-nesting-limit": _known_f21}
 
 FACETS = [Facet("file", strategy, check, classify, quick=2400, thorough=100000)]
